@@ -773,7 +773,7 @@ STREAMS = {"gradient": (stream_gradient, 390, 3900), "krim": (stream_krim, 84, 8
 
 
 def main():
-    chk = Check("C18")
+    chk = Check("C18", props_files=["Props/C18.v", "Props/C18gen.v"])
     chk.build()
     chk.proofs()
     if chk.replay_path:
